@@ -626,9 +626,16 @@ func TestVerifC13Validating(t *testing.T) {
 			oldPod = c13PerturbOld(r, newPod)
 		}
 		gate := r.Chance(1, 7)
+		c13DecorateStatus(h, r, newPod, oldPod) // ext6: in-place-resize status (decides nothing; the last draws of the case)
 		h.Op("pod 0 %s", c13EncPod(newPod))
 		if oldPod != nil {
 			h.Op("pod 1 %s", c13EncPod(oldPod))
+		}
+		if c13HasResizeStatus(newPod) {
+			h.Op("cstatus 0 %s", c13EncStatus(newPod))
+		}
+		if oldPod != nil && c13HasResizeStatus(oldPod) {
+			h.Op("cstatus 1 %s", c13EncStatus(oldPod))
 		}
 		h.Op("validate %d %d", vB(gate), op)
 
@@ -718,7 +725,9 @@ func TestVerifC13Validating(t *testing.T) {
 	h.Close("one (operation, old pod, new pod, feature gate) per case: QoS label over all classes/absent/garbage, priority class by value " +
 		"(on, between and outside the ranges) or by label, 1-3 containers + 0-3 init containers (1/3 sidecars) + overhead + pod-level resources (1/8) " +
 		"with cpu/memory/batch/mid/foreign quantities (integral, milli, sub-milli, nano, binary suffixes, zero, missing, 1/12 of the pods with " +
-		"negative entries); UPDATE old pods are perturbed copies; " +
+		"negative entries); UPDATE old pods are perturbed copies; 1/3 of the cases carry an in-place-resize status (status.containerStatuses / " +
+		"initContainerStatuses [].resources and allocatedResources equal to / above (whole CPUs) / below / empty / nil / unrelated to / without the batch " +
+		"entries of the declared requests, conditions PodResizePending Deferred / Infeasible, PodResizeInProgress) on the new and the old pod; " +
 		"non-trivial = the new pod has a QoS or a priority class; distinct by op lines")
 }
 
@@ -932,4 +941,232 @@ func TestVerifC13ValidatingExhaustive(t *testing.T) {
 	h.Close("exhaustive enumeration of the validating decision table: QoS label x priority class (value in/between ranges, label, garbage, absent) x " +
 		"CPU {integral, fractional, zero, missing, split} x batch {none, positive, zero} x CREATE / UPDATE with at most one immutable field changed x gate; " +
 		"every case non-trivial; oracle = the table in both directions")
+}
+
+// ---- in-place resize (ext6): pod.status carries resources as well; the protocol judges the SPEC ----
+// A running pod's status.containerStatuses[].resources / allocatedResources may differ from spec.containers[].resources
+// (in-place resize), and the conditions PodResizePending (reason Deferred / Infeasible) / PodResizeInProgress say how
+// far the kubelet got.  The webhook validates what the pod DECLARES (util.GetPodRequest = PodRequests with no
+// option set); the generators below put every relation status : spec on CREATE and UPDATE requests, the op line
+// `cstatus` hands the status to the model (which ignores it: Model/C13Status.lean), the oracle is unchanged.
+
+// c13ResizeCond: <pending> + 4*<inProgress>; pending: 0 no PodResizePending condition, 1 reason Deferred, 2 reason
+// Infeasible, 3 another reason (the FIRST PodResizePending condition counts, as in IsPodResizeInfeasible).
+func c13ResizeCond(pod *corev1.Pod) int {
+	pend, prog := 0, 0
+	for _, c := range pod.Status.Conditions {
+		if c.Type == "PodResizePending" && pend == 0 {
+			switch c.Reason {
+			case "Deferred":
+				pend = 1
+			case "Infeasible":
+				pend = 2
+			default:
+				pend = 3
+			}
+		}
+		if c.Type == "PodResizeInProgress" {
+			prog = 1
+		}
+	}
+	return pend + 4*prog
+}
+
+func c13HasResizeStatus(pod *corev1.Pod) bool {
+	return c13ResizeCond(pod) != 0 || len(pod.Status.ContainerStatuses) > 0 || len(pod.Status.InitContainerStatuses) > 0 ||
+		pod.Status.Resources != nil || pod.Status.AllocatedResources != nil
+}
+
+// c13EncStatus: <cond> <n> (<name> <hasResources> RL(resources.requests) RL(allocatedResources))* <hasPodResources> RL RL
+// (containerStatuses first, then initContainerStatuses: the order in which PodRequests fills its name map)
+func c13EncStatus(pod *corev1.Pod) string {
+	parts := []string{strconv.Itoa(c13ResizeCond(pod)), strconv.Itoa(len(pod.Status.ContainerStatuses) + len(pod.Status.InitContainerStatuses))}
+	for _, list := range [][]corev1.ContainerStatus{pod.Status.ContainerStatuses, pod.Status.InitContainerStatuses} {
+		for i := range list {
+			cs := &list[i]
+			var rq corev1.ResourceList
+			if cs.Resources != nil {
+				rq = cs.Resources.Requests
+			}
+			parts = append(parts, strconv.Itoa(c13CtrCode(cs.Name)), strconv.Itoa(vB(cs.Resources != nil)), c13EncRL(rq), c13EncRL(cs.AllocatedResources))
+		}
+	}
+	var prq corev1.ResourceList
+	if pod.Status.Resources != nil {
+		prq = pod.Status.Resources.Requests
+	}
+	parts = append(parts, strconv.Itoa(vB(pod.Status.Resources != nil)), c13EncRL(prq), c13EncRL(pod.Status.AllocatedResources))
+	return strings.Join(parts, " ")
+}
+
+// c13DeriveRL: what a status reports, relative to the declared requests.  mode: 0 equal, 1 up (cpu rounded up to whole
+// CPUs [+1], the rest doubled), 2 down (cpu rounded down to whole CPUs, the rest halved), 3 empty, 4 nil, 5 unrelated,
+// 6 without the batch / mid entries, 7 with an added batch-cpu entry.
+func c13DeriveRL(r *vRand, spec corev1.ResourceList, mode int) corev1.ResourceList {
+	switch mode {
+	case 3:
+		return corev1.ResourceList{}
+	case 4:
+		return nil
+	case 5:
+		return c13Resources(r, false, 20).Requests
+	}
+	out := corev1.ResourceList{}
+	for k, q := range spec {
+		switch {
+		case mode == 6 && strings.HasPrefix(string(k), "kubernetes.io/"):
+			continue
+		case (mode == 1 || mode == 2) && k == "cpu":
+			m := q.MilliValue()
+			if m < 0 {
+				out[k] = q.DeepCopy()
+			} else if mode == 1 {
+				w := (m + 999) / 1000
+				if r != nil && r.Chance(1, 3) {
+					w++
+				}
+				out[k] = *resource.NewQuantity(w, resource.DecimalSI)
+			} else {
+				out[k] = *resource.NewQuantity(m/1000, resource.DecimalSI)
+			}
+		case mode == 1:
+			out[k] = *resource.NewQuantity(q.Value()*2, q.Format)
+		case mode == 2:
+			out[k] = *resource.NewQuantity(q.Value()/2, q.Format)
+		default:
+			out[k] = q.DeepCopy()
+		}
+	}
+	if mode == 7 {
+		out["kubernetes.io/batch-cpu"] = *resource.NewQuantity(1000, resource.DecimalSI)
+	}
+	return out
+}
+
+var c13CondKinds = []string{"none", "deferred", "infeasible", "in-progress", "infeasible+in-progress", "deferred+in-progress"}
+
+func c13SetResizeCond(pod *corev1.Pod, kind int) {
+	pending := func(reason string) {
+		pod.Status.Conditions = append(pod.Status.Conditions, corev1.PodCondition{Type: "PodResizePending", Status: corev1.ConditionTrue, Reason: reason})
+	}
+	progress := func() {
+		pod.Status.Conditions = append(pod.Status.Conditions, corev1.PodCondition{Type: "PodResizeInProgress", Status: corev1.ConditionTrue})
+	}
+	switch kind {
+	case 1:
+		pending("Deferred")
+	case 2:
+		pending("Infeasible")
+	case 3:
+		progress()
+	case 4:
+		progress()
+		pending("Infeasible")
+	case 5:
+		pending("Deferred")
+		progress()
+	}
+}
+
+// c13SetStatus: one status entry per container (main containers and init containers) with resources.requests =
+// derive(resMode) (resMode -1: resources nil) and allocatedResources = derive(allocMode).
+func c13SetStatus(r *vRand, pod *corev1.Pod, resMode, allocMode int) {
+	pod.Status.ContainerStatuses, pod.Status.InitContainerStatuses = nil, nil
+	entry := func(c *corev1.Container) corev1.ContainerStatus {
+		cs := corev1.ContainerStatus{Name: c.Name, Ready: true}
+		if resMode >= 0 {
+			cs.Resources = &corev1.ResourceRequirements{Requests: c13DeriveRL(r, c.Resources.Requests, resMode)}
+			if resMode != 3 && resMode != 4 {
+				cs.Resources.Limits = c.Resources.Limits.DeepCopy()
+			}
+		}
+		cs.AllocatedResources = c13DeriveRL(r, c.Resources.Requests, allocMode)
+		return cs
+	}
+	for i := range pod.Spec.Containers {
+		pod.Status.ContainerStatuses = append(pod.Status.ContainerStatuses, entry(&pod.Spec.Containers[i]))
+	}
+	for i := range pod.Spec.InitContainers {
+		pod.Status.InitContainerStatuses = append(pod.Status.InitContainerStatuses, entry(&pod.Spec.InitContainers[i]))
+	}
+}
+
+var c13StatusScenarios = []string{"up-whole", "empty", "equal", "alloc-only", "mixed", "no-batch", "down", "adds-batch"}
+
+// c13GenStatus: a random resize status for a generated pod; returns the scenario's name (for the histogram).
+func c13GenStatus(r *vRand, pod *corev1.Pod) string {
+	scen := int(r.Pick([]int64{0, 0, 0, 1, 1, 2, 3, 4, 4, 4, 5, 5, 6, 7}))
+	cond := r.Intn(len(c13CondKinds))
+	switch scen {
+	case 0:
+		c13SetStatus(r, pod, 1, int(r.Pick([]int64{4, 0, 1})))
+	case 1:
+		c13SetStatus(r, pod, int(r.Pick([]int64{3, 4})), int(r.Pick([]int64{3, 4})))
+		if r.Chance(3, 4) {
+			cond = int(r.Pick([]int64{2, 4}))
+		}
+	case 2:
+		c13SetStatus(r, pod, 0, 0)
+	case 3:
+		c13SetStatus(r, pod, -1, 1)
+	case 4:
+		c13SetStatus(r, pod, 0, 0)
+		fix := func(list []corev1.ContainerStatus, cs []corev1.Container) []corev1.ContainerStatus {
+			var out []corev1.ContainerStatus
+			for i := range list {
+				if r.Chance(1, 6) {
+					continue // no status entry for this container
+				}
+				e := list[i]
+				if r.Chance(1, 6) {
+					e.Resources = nil
+				} else {
+					e.Resources = &corev1.ResourceRequirements{Requests: c13DeriveRL(r, cs[i].Resources.Requests, r.Intn(8))}
+				}
+				e.AllocatedResources = c13DeriveRL(r, cs[i].Resources.Requests, r.Intn(8))
+				out = append(out, e)
+			}
+			return out
+		}
+		pod.Status.ContainerStatuses = fix(pod.Status.ContainerStatuses, pod.Spec.Containers)
+		pod.Status.InitContainerStatuses = fix(pod.Status.InitContainerStatuses, pod.Spec.InitContainers)
+		if r.Chance(1, 6) { // an entry that names no container of the spec
+			pod.Status.ContainerStatuses = append(pod.Status.ContainerStatuses, corev1.ContainerStatus{Name: "c77",
+				Resources: &corev1.ResourceRequirements{Requests: corev1.ResourceList{"cpu": resource.MustParse("500m")}}})
+		}
+	case 5:
+		c13SetStatus(r, pod, 6, int(r.Pick([]int64{6, 4})))
+		if r.Chance(3, 4) {
+			cond = int(r.Pick([]int64{2, 4}))
+		}
+	case 6:
+		c13SetStatus(r, pod, 2, int(r.Pick([]int64{2, 0, 4})))
+	case 7:
+		c13SetStatus(r, pod, 7, int(r.Pick([]int64{7, 0, 4})))
+	}
+	c13SetResizeCond(pod, cond)
+	if pod.Spec.Resources != nil && r.Chance(1, 3) { // pod-level status (read only under an option nobody sets)
+		pod.Status.Resources = &corev1.ResourceRequirements{Requests: c13DeriveRL(r, pod.Spec.Resources.Requests, r.Intn(5))}
+		pod.Status.AllocatedResources = c13DeriveRL(r, pod.Spec.Resources.Requests, r.Intn(5))
+	}
+	return c13StatusScenarios[scen] + "/" + c13CondKinds[cond]
+}
+
+// c13DecorateStatus: the LAST draws of a random case (the pods of the case are the same as without it): 1/3 of the
+// cases get a resize status on the new pod; the old pod of an UPDATE then gets the same one, its own, or none.
+func c13DecorateStatus(h *vHarness, r *vRand, newPod, oldPod *corev1.Pod) {
+	if !r.Chance(1, 3) {
+		h.Tag("resize-status:absent")
+		return
+	}
+	h.Tag("resize-status:" + c13GenStatus(r, newPod))
+	if oldPod != nil {
+		switch r.Intn(3) {
+		case 0:
+			oldPod.Status.ContainerStatuses = newPod.DeepCopy().Status.ContainerStatuses
+			oldPod.Status.InitContainerStatuses = newPod.DeepCopy().Status.InitContainerStatuses
+		case 1:
+			c13GenStatus(r, oldPod)
+		}
+	}
 }
